@@ -97,6 +97,9 @@ structure Snd where
   gW : List Nat := []
   gUna : Nat := 0
   gNxt : Nat := 0
+  /-- ghost of the C04 sender bound: the rightmost window edge the peer has offered so far, as a stream offset
+  (the largest `gUna + sndWnd` over the connection's history) -/
+  gEdge : Nat := 0
 deriving Repr
 
 /-- the placeholder sender (used where a lookup has no endpoint): a fresh sender's congestion state -/
@@ -321,7 +324,8 @@ def updateRecentTimestamp (e : Ep) (tsVal maxSentAck segSeq : Nat) : Ep :=
 def ackAdvance (s : Snd) (ack : Nat) : Snd :=
   let s0 := { s with dupAck := 0, timerEnabled := false }
   let acked := sizeS s0.sndUna ack
-  let s1 := ackLoop (s0.writeList.length + 1) { s0 with sndUna := ack, gUna := s0.gUna + acked } acked
+  let s1 := ackLoop (s0.writeList.length + 1)
+    { s0 with sndUna := ack, gUna := s0.gUna + acked, gEdge := max s0.gEdge (s0.gUna + acked + s0.sndWnd % M) } acked
   let s2 := if !s1.fr.active then
       let d := s0.outstanding - s1.outstanding
       renoUpdate s1 (if d < 0 then 0 else d.toNat)
@@ -333,7 +337,7 @@ bookkeeping, window update, cumulative-ACK processing and the fast retransmissio
 def sndPrepare (e : Ep) (seg : InSeg) (window : Nat) (ts : Model.Header.TCPOpts) : Ep × List OutSeg :=
   let e0 := updateRecentTimestamp e ts.tsVal e.snd.maxSentAck seg.seq
   let c := checkDuplicateAck e0.snd seg.ack seg.logicalLen window
-  let s := { c.1 with sndWnd := window }
+  let s := { c.1 with sndWnd := window, gEdge := max c.1.gEdge (c.1.gUna + window % M) }
   let e1 : Ep :=
     if inRange (subS seg.ack 1) s.sndUna s.sndNxt then
       { e0 with snd := ackAdvance s seg.ack, sndBufUsed := e0.sndBufUsed - sizeS s.sndUna seg.ack }
@@ -585,7 +589,7 @@ def newEp (iss irs sndWnd mss : Nat) (sndWndScale : Int) (rcvWnd rcvWndScale mtu
   let mp := if m ≥ mss then mss else (if m == 0 then 1 else m)
   { snd := { sndUna := addS iss 1, sndNxt := addS iss 1, sndNxtList := addS iss 1, sndWnd := sndWnd,
              sndWndScale := if sndWndScale > 0 then sndWndScale.toNat else 0, maxPayload := mp,
-             maxSentAck := addS irs 1, fr := { last := iss }, gIss1 := addS iss 1 },
+             maxSentAck := addS irs 1, fr := { last := iss }, gIss1 := addS iss 1, gEdge := sndWnd % M },
     rcv := { rcvNxt := addS irs 1, rcvAcc := addS irs (rcvWnd + 1), rcvWndScale := rcvWndScale, pendingBufSize := rcvWnd },
     rcvBufSize := rcvBuf, sndBufSize := sndBuf, sendTSOk := ts, recentTS := recentTS, sackPermitted := sackPerm }
 
